@@ -66,10 +66,27 @@ impl<Effect, Event> CommandContext<Effect, Event> {
 //@extract id=CommandOutput file=crux_core/src/command/stream.rs item="enum CommandOutput"
 //@end
 
+/// the command's task slab / output queues, as far as a combinator can look at them: any answer is possible
 #[verifier::external_body]
-#[verifier::accept_recursive_types(Effect)]
-#[verifier::accept_recursive_types(Event)]
-pub struct Command<Effect, Event> { _p: core::marker::PhantomData<(Effect, Event)> }
+pub struct TaskSlab { _p: u8 }
+impl TaskSlab {
+    #[verifier::external_body]
+    pub fn is_empty(&self) -> (r: bool) { unimplemented!() }
+    #[verifier::external_body]
+    pub fn len(&self) -> (r: usize) { unimplemented!() }
+}
+#[verifier::external_body]
+#[verifier::accept_recursive_types(T)]
+pub struct Rx<T> { _p: core::marker::PhantomData<T> }
+impl<T> Rx<T> {
+    #[verifier::external_body]
+    pub fn is_empty(&self) -> (r: bool) { unimplemented!() }
+    #[verifier::external_body]
+    pub fn len(&self) -> (r: usize) { unimplemented!() }
+}
+#[verifier::external_body]
+pub struct CommandRest { _p: u8 }
+pub struct Command<Effect, Event> { pub tasks: TaskSlab, pub effects: Rx<Effect>, pub events: Rx<Event>, pub rest: CommandRest }
 /// `self.map(f)` (StreamExt::map): the same stream with every output passed through `f`
 #[verifier::external_body]
 #[verifier::accept_recursive_types(Effect)]
@@ -111,8 +128,8 @@ impl<Effect, Event, F> Mapped<Effect, Event, F> {
 }
 
 // ------------------------------------------------------------------ then
-//@extract id=Command::then::task file=crux_core/src/command/mod.rs within="impl<Effect, Event> Command<Effect, Event>" item="fn then" closure="Command::new\(" props=C04
-//@expect |ctx| async move
+//@extract id=Command::then::task file=crux_core/src/command/mod.rs within="impl<Effect, Event> Command<Effect, Event>" item="fn then" closure="(?:Command|Self)::new\(" props=C04
+//@expect |$x| async move
 //@sig fn then_task<Effect, Event>(Tracked(w): Tracked<&mut MW>, first: Command<Effect, Event>, other: Command<Effect, Event>, $x: CommandContext<Effect, Event>)
 //@contract
     ensures
@@ -126,8 +143,8 @@ impl<Effect, Event, F> Mapped<Effect, Event, F> {
 //@end
 
 // ------------------------------------------------------------------ map_effect / map_event
-//@extract id=Command::map_effect::task file=crux_core/src/command/mod.rs within="impl<Effect, Event> Command<Effect, Event>" item="fn map_effect" closure="Command::new\(" props=C04
-//@expect |ctx| async move
+//@extract id=Command::map_effect::task file=crux_core/src/command/mod.rs within="impl<Effect, Event> Command<Effect, Event>" item="fn map_effect" closure="(?:Command|Self)::new\(" props=C04
+//@expect |$x| async move
 //@sig fn map_effect_task<Effect, Event, NewEffect, F: Fn(Effect) -> NewEffect>(Tracked(w): Tracked<&mut MW>, this: Command<Effect, Event>, map: F, $x: CommandContext<NewEffect, Event>)
 //@contract
     requires
@@ -143,8 +160,8 @@ impl<Effect, Event, F> Mapped<Effect, Event, F> {
 //@rule X1.closure-contract 1 closure#this\.map\(#|$x: CommandOutput<Effect, Event>| -> (r: CommandOutput<NewEffect, Event>) ensures match $x { CommandOutput::Effect(e) => r matches CommandOutput::Effect(n) && call_ensures(map, (e,), n), CommandOutput::Event(ev) => r == CommandOutput::<NewEffect, Event>::Event(ev) } // [C04/map_effect/every-effect-is-transformed-exactly-once-and-events-pass-unchanged]\n#
 //@end
 
-//@extract id=Command::map_event::task file=crux_core/src/command/mod.rs within="impl<Effect, Event> Command<Effect, Event>" item="fn map_event" closure="Command::new\(" props=C04
-//@expect |ctx| async move
+//@extract id=Command::map_event::task file=crux_core/src/command/mod.rs within="impl<Effect, Event> Command<Effect, Event>" item="fn map_event" closure="(?:Command|Self)::new\(" props=C04
+//@expect |$x| async move
 //@sig fn map_event_task<Effect, Event, NewEvent, F: Fn(Event) -> NewEvent>(Tracked(w): Tracked<&mut MW>, this: Command<Effect, Event>, map: F, $x: CommandContext<Effect, NewEvent>)
 //@contract
     requires
@@ -161,8 +178,8 @@ impl<Effect, Event, F> Mapped<Effect, Event, F> {
 //@end
 
 // ------------------------------------------------------------------ event
-//@extract id=Command::event::task file=crux_core/src/command/mod.rs within="impl<Effect, Event> Command<Effect, Event>" item="fn event" closure="Command::new\(" props=C04
-//@expect |ctx| async move
+//@extract id=Command::event::task file=crux_core/src/command/mod.rs within="impl<Effect, Event> Command<Effect, Event>" item="fn event" closure="(?:Command|Self)::new\(" props=C04
+//@expect |$x| async move
 //@sig fn event_task<Effect, Event>(Tracked(w): Tracked<&mut MW>, event: Event, $x: CommandContext<Effect, Event>)
 //@contract
     ensures
@@ -173,7 +190,7 @@ impl<Effect, Event, F> Mapped<Effect, Event, F> {
 
 // ------------------------------------------------------------------ notify
 //@extract id=Command::notify_shell::task file=crux_core/src/command/mod.rs within="impl<Effect, Event> Command<Effect, Event>" item="fn notify_shell" closure="NotificationBuilder::new\(" props=C04
-//@expect |ctx| async move
+//@expect |$x| async move
 //@sig fn notify_task<Effect, Event, Op>(Tracked(w): Tracked<&mut MW>, operation: Op, $x: CommandContext<Effect, Event>)
 //@contract
     ensures
@@ -181,6 +198,69 @@ impl<Effect, Event, F> Mapped<Effect, Event, F> {
         final(w).hosted == old(w).hosted && final(w).events_sent == old(w).events_sent, // [C04/notify/and-nothing-else]
 //@rule X6.world * s/\.notify_shell\(/.notify_shell(Tracked(w), /
 //@end
+
+// ------------------------------------------------------------------ the combinators themselves: one new command, one task
+/// what the main task of a command built by a combinator does (its body is proved above)
+pub enum TaskBody { Then(StreamId, StreamId), MapEffect(StreamId), MapEvent(StreamId), Event(int), Other }
+#[verifier::external_body]
+pub fn then_body<Effect, Event>(first: Command<Effect, Event>, second: Command<Effect, Event>) -> (r: Ghost<TaskBody>)
+    ensures r@ == TaskBody::Then(first.id(), second.id()),
+{ unimplemented!() }
+#[verifier::external_body]
+pub fn map_effect_body<Effect, Event, F>(this: Command<Effect, Event>, map: F) -> (r: Ghost<TaskBody>)
+    ensures r@ == TaskBody::MapEffect(this.id()),
+{ unimplemented!() }
+#[verifier::external_body]
+pub fn map_event_body<Effect, Event, F>(this: Command<Effect, Event>, map: F) -> (r: Ghost<TaskBody>)
+    ensures r@ == TaskBody::MapEvent(this.id()),
+{ unimplemented!() }
+#[verifier::external_body]
+pub fn event_body<Event>(event: Event) -> (r: Ghost<TaskBody>)
+    ensures r@ == TaskBody::Event(val_id(event)),
+{ unimplemented!() }
+
+impl<Effect, Event> Command<Effect, Event> {
+    /// the body of the command's main task, for a command built by `Command::new`
+    pub uninterp spec fn main_task(&self) -> TaskBody;
+    // ASSUMED (proved in unit Q: Command::new holds exactly the main task, made ready once): X17 - the
+    // closure handed to Command::new is named by what it captures
+    #[verifier::external_body]
+    pub fn new_task(t: Ghost<TaskBody>) -> (r: Self)
+        ensures r.main_task() == t@,
+    { unimplemented!() }
+
+//@extract id=Command::then file=crux_core/src/command/mod.rs within="impl<Effect, Event> Command<Effect, Event>" item="fn then" props=C04
+//@expect pub fn then(self, other: Self) -> Self where Effect: Unpin, Event: Unpin,
+//@sig pub fn then(self, other: Self) -> (r: Self)
+//@contract
+        ensures r.main_task() == TaskBody::Then(self.id(), other.id()), // [C04/then/the-result-is-a-new-command-whose-one-task-hosts-both-parts-whatever-state-they-are-in]
+//@rule X17.task-closure 1 block#(?:Command|Self)::new\(\|\w+\| async move #Command::new_task(then_body(self, other)#
+//@end
+
+//@extract id=Command::map_effect file=crux_core/src/command/mod.rs within="impl<Effect, Event> Command<Effect, Event>" item="fn map_effect" props=C04
+//@expect pub fn map_effect<F, NewEffect>(self, map: F) -> Command<NewEffect, Event> where F: Fn(Effect) -> NewEffect + Send + Sync + 'static, NewEffect: Send + Unpin + 'static, Effect: Unpin, Event: Unpin,
+//@sig pub fn map_effect<F, NewEffect>(self, map: F) -> (r: Command<NewEffect, Event>) where F: Fn(Effect) -> NewEffect
+//@contract
+        ensures r.main_task() == TaskBody::MapEffect(self.id()), // [C04/map_effect/the-result-is-a-new-command-whose-one-task-hosts-this-command-mapped]
+//@rule X17.task-closure 1 block#(?:Command|Self)::new\(\|\w+\| async move #Command::new_task(map_effect_body(self, map)#
+//@end
+
+//@extract id=Command::map_event file=crux_core/src/command/mod.rs within="impl<Effect, Event> Command<Effect, Event>" item="fn map_event" props=C04
+//@expect pub fn map_event<F, NewEvent>(self, map: F) -> Command<Effect, NewEvent> where F: Fn(Event) -> NewEvent + Send + Sync + 'static, NewEvent: Send + Unpin + 'static, Effect: Unpin, Event: Unpin,
+//@sig pub fn map_event<F, NewEvent>(self, map: F) -> (r: Command<Effect, NewEvent>) where F: Fn(Event) -> NewEvent
+//@contract
+        ensures r.main_task() == TaskBody::MapEvent(self.id()), // [C04/map_event/the-result-is-a-new-command-whose-one-task-hosts-this-command-mapped]
+//@rule X17.task-closure 1 block#(?:Command|Self)::new\(\|\w+\| async move #Command::new_task(map_event_body(self, map)#
+//@end
+
+//@extract id=Command::event file=crux_core/src/command/mod.rs within="impl<Effect, Event> Command<Effect, Event>" item="fn event" props=C04
+//@expect pub fn event(event: Event) -> Self
+//@sig pub fn event(event: Event) -> (r: Self)
+//@contract
+        ensures r.main_task() == TaskBody::Event(val_id(event)), // [C04/event/the-result-is-a-new-command-whose-one-task-sends-exactly-this-event]
+//@rule X17.task-closure 1 block#(?:Command|Self)::new\(\|\w+\| async move #Command::new_task(event_body(event)#
+//@end
+}
 
 } // verus!
 
